@@ -722,6 +722,12 @@ def run_main(spec, acc):
             if opt['complexity'] is None and rng.random() < 0.5:
               opt['complexity'] = rng.choice([0, 1, 2, 3])     # sub-fixtures x variable extraction
               acc.obs('with_complexity')
+          symlists = [n for n in gen.walk(root) if getattr(n, 'symbol_list', False)]
+          if symlists and genname == 'new_codegen' and not names_mode and rng.random() < 0.5:
+            # a list of functions / classes as a sub-fixture of its own (plain generator only)
+            opt['sub_uids'] = [symlists[0].uid] + list(opt.get('sub_uids') or [])[:1]
+            acc.obs('with_sub_fixtures')
+            acc.obs('with_symbol_list_sub_fixture')
           kind, detail = attempt(root, genname, opt, scratch)
           acc.case((sketch, genname, repr(sorted(opt.items(), key=str))), nb >= 2 and kind == 'ok')
           if kind == 'realise-failed':
